@@ -30,6 +30,15 @@
                  (parameters actually stored), `memo` (which used-counts have had their sub-carrier numbers
                  computed, and in which branch), `prev` (layout and content of the IFFT input of the last
                  modulate call).
+     PARAMETER REGIMES.  (a) `cfg.pt`: the integer scalar type the parameters are passed as ("int" = Python int,
+                 "int8" ... "uint64" = NumPy scalars).  The behaviour must not depend on it (ScaleLaw and every other
+                 law are stated on the VALUES); admitted whenever every size the API exposes - N, cp, u, N + cp, the
+                 padded length and the emitted length - is representable in the type (`Fits`).  ScaleCase (star)
+                 does the same for sizes at the 16/32-bit overflow thresholds of N^2 (256, 65536), too large for
+                 chains.  In a history every configuration call carries a type chosen by rotation (`CallPType`).
+                 (b) `chan.g`: the channel gain 10^g, g in Gains (the property quantifies over ALL static
+                 realisations: the equaliser must be exact for a channel of any overall scale, 1e-7 .. 1e7); the
+                 gain is carried symbolically in `sc.g`.
      FRAME LAWS (notes/CALL_DISCIPLINE.md): ArgumentsUnchanged (data after modulate; the received array - values
                  AND scale `rxe` - after demodulate), EarlierResultsUnchanged (the emitted signal after the
                  receiver ran), RejectedChangesNothing (= ObjectCoherent after a rejected call), RepeatableCall
@@ -68,6 +77,8 @@
      MemoNumbersByUsedOnly (sub-carrier numbers cached per object keyed by the used count only: stale when
      the all-carriers branch and the centred branch meet the same count at different fft sizes),
      RejectedSetHalfUpdates (set_parameters stores fft/cp before it validates the used count),
+     ScaleWrapsNarrowInt (fft_size^2 formed in the parameters' own narrow integer type wraps),
+     EqSkipsTinyResponse (the equaliser does not divide where |H| is below an ABSOLUTE threshold 1e-6),
      PadKeepsOldData (the zero-padded IFFT input is kept between modulate calls and re-zeroed only when its
      layout <<symbols, fft, used>> changes), DemodScalesArgument (demodulate removes the scale in place on
      the caller's array)
@@ -84,6 +95,10 @@ CONSTANTS Configs,   \* set of <<N, cp, u>> for which pipeline cases are generat
           NDense,    \* number of pseudo-random dense data patterns per length
           LayMode,   \* "none" | "one" | "three" | "basis" | "all3" : tap layouts per configuration
           Block,     \* BOOLEAN: also block-static channels (taps of OFDM symbol s multiplied by i^s)
+          CallTypes, \* sequence of scalar types the configuration calls of a history rotate through
+          PTypes,    \* set of parameter scalar types for the chains of fresh objects ({"int"} = Python ints only)
+          ScaleCases,\* set of <<N, cp, u, pt>> : star cases for sizes too large for chains
+          Gains,     \* set of exponents g: every channel is also run with its taps scaled by 10^g
           HistFirst, \* set of valid <<N, cp, u>> a live object is constructed with (partitions the histories)
           HistValid, \* set of valid <<N, cp, u>> a live object is re-configured to
           HistBad,   \* set of invalid <<N, cp, u>> passed to set_parameters (must be rejected, object unchanged)
@@ -96,18 +111,19 @@ ASSUME CySelfTest(8)
 
 VARIABLES pc, cfg, ns, data, chan, sc, padded, grid, gridi, body, tx, txi, rxfull, rx, win, wini,
           freq, dem, demi, eq,
+          psq,                           \* fft_size^2 as the as-is modulator formed it
           hist, want, obj, memo, prev,   \* the live object: calls so far, demanded / stored parameters, caches
           rxe                            \* exponent of sqrt(ps) carried by the CALLER's received array
 live == <<hist, want, obj, memo, prev>>
 vars == <<pc, cfg, ns, data, chan, sc, padded, grid, gridi, body, tx, txi, rxfull, rx, win, wini,
-          freq, dem, demi, eq, hist, want, obj, memo, prev, rxe>>
+          freq, dem, demi, eq, psq, hist, want, obj, memo, prev, rxe>>
 
 GZ == <<0, 0>>
 Exact(N) == N \in {2, 4, 8, 16}
-NoChan == [taps |-> <<>>, block |-> FALSE]
+NoChan == [taps |-> <<>>, block |-> FALSE, g |-> 0]
 NoObj  == [N |-> 0, cp |-> 0, u |-> 0]
 NoPrev == [ns |-> 0, N |-> 0, u |-> 0, pad |-> <<>>]
-NoCfg  == [N |-> 0, cp |-> 0, u |-> 0, L |-> 0, pat |-> <<"none", 0, 0>>]
+NoCfg  == [N |-> 0, cp |-> 0, u |-> 0, L |-> 0, pat |-> <<"none", 0, 0>>, pt |-> "int"]
 N0 == cfg.N
 CP == cfg.cp
 U  == cfg.u
@@ -122,7 +138,29 @@ Valid(N, cp, u) == cp \in 0..N /\ u \in 2..N /\ u % 2 = 0
 NSym(L, u) == (L + u - 1) \div u
 \* the power scale applied by the modulator and removed by the demodulator (as a rational <<n, d>>):
 \* with it the u used carriers of unit power give emitted samples of mean power u/(u+cp)
-PowerScale(N, cp, u) == <<N * N, u + cp>>
+\* Emitted in ROOT form <<N, u + cp>> = N^2 / (u + cp), so that sizes up to 2^31 do not overflow TLC's integers.
+PowerScale(N, cp, u) == <<N, u + cp>>
+
+\* ---- parameter scalar types ----
+AllPTypes == <<"int", "int8", "uint8", "int16", "uint16", "int32", "uint32", "int64", "uint64">>
+\* largest value of the type as far as it matters here (TLC integers are 32-bit; every size here is below 2^31)
+PMax(pt) == IF pt = "int8" THEN 127 ELSE IF pt = "uint8" THEN 255 ELSE IF pt = "int16" THEN 32767
+            ELSE IF pt = "uint16" THEN 65535 ELSE 2147483647
+\* every size the API exposes for this case is representable in the type
+Fits(pt, c, L) == LET nsx == (L + c[3] - 1) \div c[3]
+                  IN  /\ c[1] <= PMax(pt) /\ c[2] <= PMax(pt) /\ c[3] <= PMax(pt)
+                      /\ c[1] + c[2] <= PMax(pt) /\ nsx * c[3] <= PMax(pt) /\ nsx * (c[1] + c[2]) <= PMax(pt)
+\* two's complement wrap of x into an 8/16-bit type
+WrapInto(x, pt) == IF pt = "int8" THEN ((x + 128) % 256) - 128 ELSE IF pt = "uint8" THEN x % 256
+                   ELSE IF pt = "int16" THEN ((x + 32768) % 65536) - 32768 ELSE IF pt = "uint16" THEN x % 65536 ELSE x
+\* fft_size^2 as the modulator forms it (sizes of chains are far below 46341)
+SquareAsIs(N, pt) == IF Dev.ScaleWrapsNarrowInt THEN WrapInto(N * N, pt) ELSE N * N
+\* the type a configuration call of a history is made with: rotates with the position of the call
+RECURSIVE FitTypes(_, _)
+FitTypes(c, i) == IF i > Len(CallTypes) THEN <<>>
+                  ELSE (IF Fits(CallTypes[i], c, 1) THEN <<CallTypes[i]>> ELSE <<>>) \o FitTypes(c, i + 1)
+CallPType(pos, c) == IF c[1] < 1 \/ c[2] < 0 \/ c[3] < 1 THEN "int"
+                     ELSE LET ts == FitTypes(c, 1) IN IF ts = <<>> THEN "int" ELSE ts[((pos + c[1] + c[2] + c[3]) % Len(ts)) + 1]
 
 \* Sub-carrier NUMBER (signed frequency) that carries data position j in 1..u: ascending frequency,
 \* centred band, DC skipped unless every carrier is used.
@@ -216,33 +254,33 @@ FixLayout(taps, N, u) == IF Exact(N) /\ Equalizable(taps, N, u) THEN taps ELSE D
 Channels(c, k) ==
     LET lays == {FixLayout(t, c[1], c[3]) : t \in RawLayouts(c, k)}
         ext  == IF Dev.MemoryExceedsCp THEN {<< <<0, <<1, 0>>>>, <<c[2] + 1, <<0, 1>>>> >>} ELSE {}
-    IN  {[taps |-> t, block |-> b] : t \in lays \cup ext, b \in (IF Block THEN BOOLEAN ELSE {FALSE})}
+    IN  {[taps |-> t, block |-> b, g |-> g] : t \in lays \cup ext, b \in (IF Block THEN BOOLEAN ELSE {FALSE}), g \in Gains}
 
 (* ============================================ the machine ======================================= *)
 Init == /\ pc = "idle" /\ cfg = NoCfg /\ ns = 0 /\ data = <<>> /\ chan = NoChan
-        /\ sc = [e |-> 0, div |-> 1]
+        /\ sc = [e |-> 0, div |-> 1, g |-> 0] /\ psq = 0
         /\ padded = <<>> /\ grid = <<>> /\ gridi = <<>> /\ body = <<>> /\ tx = <<>> /\ txi = <<>>
         /\ rxfull = <<>> /\ rx = <<>> /\ win = <<>> /\ wini = <<>> /\ freq = <<>> /\ dem = <<>>
         /\ demi = <<>> /\ eq = <<>>
         /\ hist = <<>> /\ want = NoObj /\ obj = NoObj /\ memo = {} /\ prev = NoPrev /\ rxe = 0
 
-Choose(c, L, pat) ==
+Choose(c, L, pat, pt) ==
     /\ pc = "idle" /\ pc' = "input"
-    /\ cfg' = [N |-> c[1], cp |-> c[2], u |-> c[3], L |-> L, pat |-> pat]
+    /\ cfg' = [N |-> c[1], cp |-> c[2], u |-> c[3], L |-> L, pat |-> pat, pt |-> pt]
     /\ data' = DataOf(pat, L, KeyOf(c, L))
-    /\ UNCHANGED live /\ UNCHANGED rxe
+    /\ UNCHANGED live /\ UNCHANGED psq /\ UNCHANGED rxe
     /\ UNCHANGED <<ns, chan, sc, padded, grid, gridi, body, tx, txi, rxfull, rx, win, wini, freq, dem, demi, eq>>
 
 MapCase(N, u) ==
     /\ pc = "idle" /\ pc' = "mapcase"
     /\ cfg' = [NoCfg EXCEPT !.N = N, !.u = u]
-    /\ UNCHANGED live /\ UNCHANGED rxe
+    /\ UNCHANGED live /\ UNCHANGED psq /\ UNCHANGED rxe
     /\ UNCHANGED <<ns, data, chan, sc, padded, grid, gridi, body, tx, txi, rxfull, rx, win, wini, freq, dem, demi, eq>>
 
 ParamCase(N, cp, u) ==
     /\ pc = "idle" /\ pc' = "param"
     /\ cfg' = [NoCfg EXCEPT !.N = N, !.cp = cp, !.u = u]
-    /\ UNCHANGED live /\ UNCHANGED rxe
+    /\ UNCHANGED live /\ UNCHANGED psq /\ UNCHANGED rxe
     /\ UNCHANGED <<ns, data, chan, sc, padded, grid, gridi, body, tx, txi, rxfull, rx, win, wini, freq, dem, demi, eq>>
 
 Pad ==
@@ -250,7 +288,7 @@ Pad ==
     /\ ns' = IF Dev.SymbolsFloor THEN (IF cfg.L < U THEN 1 ELSE cfg.L \div U) ELSE NSym(cfg.L, U)
     /\ padded' = IF hist # <<>> THEN prev.pad        \* live object: the IFFT input as the use left it (UseObj)
                   ELSE [j \in 1..(ns' * U) |-> IF j <= cfg.L THEN data[j] ELSE GZ]
-    /\ UNCHANGED live /\ UNCHANGED rxe
+    /\ UNCHANGED live /\ UNCHANGED psq /\ UNCHANGED rxe
     /\ UNCHANGED <<cfg, data, chan, sc, grid, gridi, body, tx, txi, rxfull, rx, win, wini, freq, dem, demi, eq>>
 
 Map ==
@@ -258,13 +296,14 @@ Map ==
     /\ LET inv == InvIdx(UsedIdxLive(N0, U), N0)
        IN  /\ gridi' = [s \in 1..ns |-> [k1 \in 1..N0 |-> IF inv[k1] = 0 THEN 0 ELSE (s - 1) * U + inv[k1]]]
            /\ grid'  = [s \in 1..ns |-> [k1 \in 1..N0 |-> IF inv[k1] = 0 THEN GZ ELSE padded[(s - 1) * U + inv[k1]]]]
-    /\ UNCHANGED live /\ UNCHANGED rxe
+    /\ UNCHANGED live /\ UNCHANGED psq /\ UNCHANGED rxe
     /\ UNCHANGED <<cfg, ns, data, chan, sc, padded, body, tx, txi, rxfull, rx, win, wini, freq, dem, demi, eq>>
 
 Ifft ==
     /\ pc = "map" /\ pc' = "ifft"
     /\ body' = IF Exact(N0) THEN [s \in 1..ns |-> CyIdftNG(grid[s], MM)] ELSE <<>>
-    /\ sc' = [e |-> 1, div |-> N0]
+    /\ sc' = [e |-> 1, div |-> N0, g |-> 0]
+    /\ psq' = SquareAsIs(N0, cfg.pt)
     /\ UNCHANGED live /\ UNCHANGED rxe
     /\ UNCHANGED <<cfg, ns, data, chan, padded, grid, gridi, tx, txi, rxfull, rx, win, wini, freq, dem, demi, eq>>
 
@@ -275,13 +314,13 @@ AddCP ==
     /\ txi' = [p1 \in 1..(ns * BlkLen) |-> <<(p1 - 1) \div BlkLen, TLabel((p1 - 1) % BlkLen)>>]
     /\ tx'  = IF Exact(N0) THEN [p1 \in 1..(ns * BlkLen) |-> body[((p1 - 1) \div BlkLen) + 1][TLabel((p1 - 1) % BlkLen) + 1]]
               ELSE <<>>
-    /\ UNCHANGED live /\ UNCHANGED rxe
+    /\ UNCHANGED live /\ UNCHANGED psq /\ UNCHANGED rxe
     /\ UNCHANGED <<cfg, ns, data, chan, sc, padded, grid, gridi, body, rxfull, rx, win, wini, freq, dem, demi, eq>>
 
 Loop ==
     /\ pc = "cp" /\ pc' = "rx"
     /\ chan' = NoChan /\ rx' = tx /\ rxe' = sc.e
-    /\ UNCHANGED live
+    /\ UNCHANGED live /\ UNCHANGED psq
     /\ UNCHANGED <<cfg, ns, data, sc, padded, grid, gridi, body, tx, txi, rxfull, win, wini, freq, dem, demi, eq>>
 
 \* multiplication of a Gaussian integer by i^k
@@ -301,29 +340,30 @@ Channel(ch) ==
                                     IN  IF src < 0 \/ src >= n THEN CyZero(MM)
                                         ELSE CyMulG(TapAt(ch, q, src), tx[src + 1])], MM)]
                    ELSE <<>>
-    /\ UNCHANGED live /\ UNCHANGED rxe
-    /\ UNCHANGED <<cfg, ns, data, sc, padded, grid, gridi, body, tx, txi, rx, win, wini, freq, dem, demi, eq>>
+    /\ sc' = [sc EXCEPT !.g = ch.g]              \* every tap, hence every received sample, carries the gain 10^g
+    /\ UNCHANGED live /\ UNCHANGED psq /\ UNCHANGED rxe
+    /\ UNCHANGED <<cfg, ns, data, padded, grid, gridi, body, tx, txi, rx, win, wini, freq, dem, demi, eq>>
 
 Crop ==
     /\ pc = "chan" /\ pc' = "rx"
     /\ rx' = IF Exact(N0) THEN SubSeq(rxfull, 1, Len(tx)) ELSE <<>>
     /\ rxe' = sc.e
-    /\ UNCHANGED live
+    /\ UNCHANGED live /\ UNCHANGED psq
     /\ UNCHANGED <<cfg, ns, data, chan, sc, padded, grid, gridi, body, tx, txi, rxfull, win, wini, freq, dem, demi, eq>>
 
 RemoveCP ==
     /\ pc = "rx" /\ pc' = "nocp"
     /\ wini' = [s \in 1..ns |-> [w1 \in 1..N0 |-> txi[(s - 1) * BlkLen + CP + w1]]]
     /\ win'  = IF Exact(N0) THEN [s \in 1..ns |-> [w1 \in 1..N0 |-> rx[(s - 1) * BlkLen + CP + w1]]] ELSE <<>>
-    /\ UNCHANGED live /\ UNCHANGED rxe
+    /\ UNCHANGED live /\ UNCHANGED psq /\ UNCHANGED rxe
     /\ UNCHANGED <<cfg, ns, data, chan, sc, padded, grid, gridi, body, tx, txi, rxfull, rx, freq, dem, demi, eq>>
 
 Fft ==
     /\ pc = "nocp" /\ pc' = "fft"
     /\ freq' = IF Exact(N0) THEN [s \in 1..ns |-> CyDft(win[s], MM)] ELSE <<>>
-    /\ sc' = [e |-> IF Dev.ScaleNotInverted THEN sc.e + 1 ELSE sc.e - 1, div |-> sc.div]
+    /\ sc' = [e |-> IF Dev.ScaleNotInverted THEN sc.e + 1 ELSE sc.e - 1, div |-> sc.div, g |-> sc.g]
     /\ rxe' = IF Dev.DemodScalesArgument THEN rxe - 1 ELSE rxe       \* the caller's array is an input only
-    /\ UNCHANGED live
+    /\ UNCHANGED live /\ UNCHANGED psq
     /\ UNCHANGED <<cfg, ns, data, chan, padded, grid, gridi, body, tx, txi, rxfull, rx, win, wini, dem, demi, eq>>
 
 Unmap ==
@@ -332,7 +372,7 @@ Unmap ==
        IN  /\ demi' = [j \in 1..(ns * U) |-> <<(j - 1) \div U, idx[((j - 1) % U) + 1]>>]
            /\ dem'  = IF Exact(N0) THEN [j \in 1..(ns * U) |-> freq[((j - 1) \div U) + 1][idx[((j - 1) % U) + 1] + 1]]
                       ELSE <<>>
-    /\ UNCHANGED live /\ UNCHANGED rxe
+    /\ UNCHANGED live /\ UNCHANGED psq /\ UNCHANGED rxe
     /\ UNCHANGED <<cfg, ns, data, chan, sc, padded, grid, gridi, body, tx, txi, rxfull, rx, win, wini, freq, eq>>
 
 \* the equalised value of element j is the exact fraction num/den (den = div * H_s[bin]); H_s is the
@@ -341,16 +381,19 @@ EqDen(H, j) == LET s == (j - 1) \div U  k == demi[j][2]
                IN  CyScale(sc.div, IF chan.block THEN CyMulZeta(H[k + 1], s * (MM \div 4)) ELSE H[k + 1])
 Equalize ==
     /\ pc = "dem" /\ chan # NoChan /\ pc' = "eq"
-    /\ eq' = IF Exact(N0)
-               THEN LET H == IF Dev.FreqResponseTruncates THEN FreqRespTrunc(chan.taps, N0) ELSE FreqResp(chan.taps, N0)
-                    IN  [j \in 1..Len(dem) |-> [num |-> dem[j], den |-> EqDen(H, j)]]
-               ELSE <<>>
-    /\ UNCHANGED live /\ UNCHANGED rxe
-    /\ UNCHANGED <<cfg, ns, data, chan, sc, padded, grid, gridi, body, tx, txi, rxfull, rx, win, wini, freq, dem, demi>>
+    /\ LET skip == Dev.EqSkipsTinyResponse /\ chan.g <= -7      \* |10^g H| below the absolute threshold: not divided
+       IN  /\ eq' = IF Exact(N0)
+                      THEN LET H == IF Dev.FreqResponseTruncates THEN FreqRespTrunc(chan.taps, N0) ELSE FreqResp(chan.taps, N0)
+                           IN  [j \in 1..Len(dem) |-> [num |-> dem[j], den |-> IF skip THEN CyScale(sc.div, CyOne(MM)) ELSE EqDen(H, j)]]
+                      ELSE <<>>
+           \* dividing by the reported response 10^g H cancels the gain carried by the demodulated samples
+           /\ sc' = [sc EXCEPT !.g = IF skip THEN sc.g ELSE 0]
+    /\ UNCHANGED live /\ UNCHANGED psq /\ UNCHANGED rxe
+    /\ UNCHANGED <<cfg, ns, data, chan, padded, grid, gridi, body, tx, txi, rxfull, rx, win, wini, freq, dem, demi>>
 
 \* ---- history of one live object (pc stays "idle"; the chains branch off every such state) ----
 AsRec(c) == [N |-> c[1], cp |-> c[2], u |-> c[3]]
-Pipeline == <<cfg, ns, data, chan, sc, padded, grid, gridi, body, tx, txi, rxfull, rx, win, wini, freq, dem, demi, eq>>
+Pipeline == <<cfg, ns, data, chan, sc, padded, grid, gridi, body, tx, txi, rxfull, rx, win, wini, freq, dem, demi, eq, psq>>
 \* the object has been used in its current configuration (a chain ran): its numbers are cached
 Used(o, m) == IF \E e \in m : e[1] = o.u THEN m ELSE m \cup {<<o.u, o.u = o.N>>}
 IsUse(e) == e[1] = "use"
@@ -391,13 +434,20 @@ NewObject   == \E c \in HistFirst : Construct(c)
 Reconfigure == \E c \in HistValid \cup HistBad : SetParameters(c)
 UseLive     == pc = "idle" /\ hist # <<>> /\ \E L \in Lengths(obj.u) : UseObj(L)
 StartLive   == pc = "idle" /\ LastIsUse /\ obj = want
-               /\ Choose(<<obj.N, obj.cp, obj.u>>, hist[Len(hist)][2], <<"dense", hist[Len(hist)][3], 0>>)
+               /\ Choose(<<obj.N, obj.cp, obj.u>>, hist[Len(hist)][2], <<"dense", hist[Len(hist)][3], 0>>, "int")
 
-Start    == pc = "idle" /\ hist = <<>> /\ \E c \in Configs : \E L \in Lengths(c[3]) : \E pat \in Patterns(c[3], L) : Choose(c, L, pat)
+Start    == pc = "idle" /\ hist = <<>> /\ \E c \in Configs : \E L \in Lengths(c[3]) : \E pat \in Patterns(c[3], L) :
+                \E pt \in {t \in PTypes : Fits(t, c, L)} : Choose(c, L, pat, pt)
+ScaleCase(k) ==
+    /\ pc = "idle" /\ pc' = "scalecase"
+    /\ cfg' = [NoCfg EXCEPT !.N = k[1], !.cp = k[2], !.u = k[3], !.L = 1, !.pt = k[4]]
+    /\ UNCHANGED <<ns, data, chan, sc, padded, grid, gridi, body, tx, txi, rxfull, rx, win, wini, freq, dem, demi, eq>>
+    /\ UNCHANGED live /\ UNCHANGED psq /\ UNCHANGED rxe
+ScaleStar == pc = "idle" /\ hist = <<>> /\ \E k \in ScaleCases : ScaleCase(k)
 MapStar  == pc = "idle" /\ hist = <<>> /\ \E N \in MapFfts : \E h \in 1..(N \div 2) : MapCase(N, 2 * h)
 ParamStar == pc = "idle" /\ hist = <<>> /\ \E N \in ParamFfts : \E cp \in -1..(N + 1) : \E u \in 0..(N + 2) : ParamCase(N, cp, u)
 Transmit == pc = "cp" /\ \E ch \in Channels(<<cfg.N, cfg.cp, cfg.u>>, KeyOf(<<cfg.N, cfg.cp, cfg.u>>, 0)) : Channel(ch)
-Next == NewObject \/ Reconfigure \/ UseLive \/ StartLive \/ Start \/ MapStar \/ ParamStar \/ Pad \/ Map \/ Ifft \/ AddCP \/ Loop \/ Transmit
+Next == ScaleStar \/ NewObject \/ Reconfigure \/ UseLive \/ StartLive \/ Start \/ MapStar \/ ParamStar \/ Pad \/ Map \/ Ifft \/ AddCP \/ Loop \/ Transmit
         \/ Crop \/ RemoveCP \/ Fft \/ Unmap \/ Equalize
 
 (* ============================================= the laws ========================================= *)
@@ -431,6 +481,11 @@ RejectedChangesNothing == ObjectCoherent
 \* every valid configuration has a well-formed index map and a positive power scale
 ParamLaw == pc = "param" /\ Valid(N0, CP, U) => /\ MapLaws(N0, U, UsedIdx(N0, U))
                                                /\ PowerScale(N0, CP, U)[2] > 0 /\ NSym(1, U) = 1
+
+\* the power scale does not depend on the integer type the parameters were passed as
+ScaleLaw == /\ pc = "ifft" => psq = N0 * N0
+            /\ pc = "scalecase" => /\ Valid(N0, CP, U) /\ Fits(cfg.pt, <<N0, CP, U>>, 1)
+                                   /\ MapLaws(N0, U, UsedIdx(N0, U))
 
 \* zero padding: the data followed only by zeros, up to a whole number of symbols
 PadLaw == pc = "pad" =>
@@ -487,13 +542,13 @@ FreqIsHTimesX == pc = "fft" /\ Exact(N0) =>
 
 \* demodulate(modulate(x)) = x followed only by zeros: scale removed, values N * x over div = N
 RoundTrip == pc = "dem" /\ chan = NoChan =>
-    /\ sc = [e |-> 0, div |-> N0]
+    /\ sc = [e |-> 0, div |-> N0, g |-> 0]
     /\ Exact(N0) => /\ Len(dem) = Len(padded)
                     /\ \A j \in 1..Len(padded) : dem[j] = CyScale(sc.div, CG(padded[j]))
 
 \* equalisation with the reported response recovers the symbols exactly: num = den * x, den # 0
 OneTapExact == pc = "eq" =>
-    /\ sc.e = 0
+    /\ sc.e = 0 /\ sc.g = 0                                     \* for a channel of ANY overall gain
     /\ Exact(N0) => /\ Len(eq) = Len(padded)
                     /\ \A j \in 1..Len(padded) : /\ eq[j].den # CyZero(MM)
                                                 /\ eq[j].num = CyMul(eq[j].den, CG(padded[j]))
@@ -507,6 +562,7 @@ StepOut ==
     CASE pc = "input"   -> [data |-> data]
       [] pc = "mapcase" -> [idx |-> UsedIdx(N0, U)]
       [] pc = "param"   -> [valid |-> Valid(N0, CP, U)]
+      [] pc = "scalecase" -> [idx |-> UsedIdx(N0, U), ns |-> 1, padded |-> [j \in 1..U |-> IF j = 1 THEN <<1, 0>> ELSE GZ]]
       [] pc = "pad"     -> [padded |-> padded, ns |-> ns]
       [] pc = "map"     -> [grid |-> grid, gridi |-> gridi, idx |-> UsedIdx(N0, U)]
       [] pc = "ifft"    -> [body |-> body]
@@ -524,6 +580,8 @@ StepOut ==
                                             IN  [j \in 1..Len(dem) |-> [num |-> dem[j], den |-> EqDen(H, j)]]
                                        ELSE <<>>]
       [] pc = "idle"    -> [call |-> hist[Len(hist)],
+                            pt |-> IF LastIsUse THEN "int"
+                                   ELSE CallPType(Len(hist), <<hist[Len(hist)][2], hist[Len(hist)][3], hist[Len(hist)][4]>>),
                             accepted |-> LastIsUse \/ Valid(hist[Len(hist)][2], hist[Len(hist)][3], hist[Len(hist)][4]),
                             want |-> <<want.N, want.cp, want.u>>]
       [] OTHER          -> [none |-> 0]
@@ -536,7 +594,7 @@ StepReq ==
       [] pc = "idle" -> IF LastIsUse THEN {} ELSE {"RejectedChangesNothing"}                     \* set_parameters
       [] OTHER       -> {}
 Emit == (pc # "idle" \/ hist # <<>>) =>
-        EmitEdge([step |-> IF pc = "idle" THEN "call" ELSE pc, hist |-> hist, id |-> <<cfg.N, cfg.cp, cfg.u, cfg.L, cfg.pat>>, ch |-> chan,
+        EmitEdge([step |-> IF pc = "idle" THEN "call" ELSE pc, hist |-> hist, id |-> <<cfg.N, cfg.cp, cfg.u, cfg.L, cfg.pat>>, pt |-> cfg.pt, ch |-> chan,
                   sc |-> sc, ps |-> PowerScale(cfg.N, cfg.cp, cfg.u), exact |-> Exact(cfg.N),
                   req |-> StepReq, out |-> StepOut])
 =============================================================================
